@@ -4,7 +4,7 @@ CONSTANTS
   Weights = {1, 4}
   Stakes <- SVt
   Decays <- Dq
-  MaxRep = 4
+  MaxRep = 3
   MaxEp = 2
   MaxOps = 0
   GenHist = FALSE
